@@ -22,42 +22,6 @@ open SJ.Proofs.NumLink (PartsWF toNumLit numOfLit numOfNRes)
 open SJ.Spec.Decimal (NumLit scale10)
 open SJ.Spec.Ieee (Overflows64)
 
-/-! ## the scanner's parts are well-formed -/
-
-theorem partsOf_wf (p : NumParts) (hwf : p.WF = true) : PartsWF (partsOf p) := by
-  obtain ⟨minus, int, frac, exp⟩ := p
-  simp only [NumParts.WF, Bool.and_eq_true] at hwf
-  obtain ⟨⟨hi, hf⟩, he⟩ := hwf
-  refine ⟨isInt_all int hi, ?_, ?_, ?_⟩
-  · rcases int_shape int hi with rfl | ⟨d, ds, rfl, _, hz, _⟩
-    · rfl
-    · simp only [partsOf]
-      cases ds with
-      | nil => rfl
-      | cons x xs => simp only [bne_iff_ne, ne_eq]; simpa using hz
-  · intro fds hfds
-    simp only [partsOf] at hfds
-    cases frac with
-    | nil => simp at hfds
-    | cons c ds =>
-      simp only [List.isEmpty_cons, Bool.false_eq_true, if_false, List.drop_succ_cons, List.drop_zero,
-        Option.some.injEq] at hfds
-      subst hfds
-      simp only [isFrac, Bool.and_eq_true] at hf
-      refine ⟨?_, hf.2⟩
-      intro h; rw [h] at hf; simp at hf
-  · intro en eds hex
-    have hex' : expOf exp = some (en, eds) := hex
-    by_cases hne : exp = []
-    · subst hne; simp [expOf] at hex'
-    · obtain ⟨c, sgn, en', d, ds, _, _, _, hd, hds, hexpOf⟩ := exp_shape exp he hne
-      rw [hexpOf] at hex'
-      simp only [Option.some.injEq, Prod.mk.injEq] at hex'
-      obtain ⟨_, rfl⟩ := hex'
-      refine ⟨by simp, ?_⟩
-      simp only [List.all_cons, Bool.and_eq_true]
-      exact ⟨hd, hds⟩
-
 /-! ## accepted literals -/
 
 theorem jsonText_num (p : NumParts) (hwf : p.WF = true) : JsonText p.bytes (.num p) :=
